@@ -5,14 +5,16 @@
  ],
  "kind": "K4",
  "tier": "quick",
- "timeout": 900,
+ "timeout": 400,
  "defines": [
   "ZSTD_MULTITHREAD",
-  "ONLY_WHICH=5"
+  "ONLY_WHICH=0"
  ],
  "loop_contracts": true,
  "functions": [
-  "POOL_thread"
+  "POOL_add",
+  "POOL_add_internal",
+  "isQueueFull"
  ],
  "floor": 50,
  "assumes": [
@@ -21,7 +23,7 @@
   "queued jobs carry valid function pointers (they were supplied by posters)",
   "queueSize <= 4096 (symbolic); thread creation in POOL_resize_internal stubbed (may fail)"
  ],
- "what": "thread-pool monitor-invariant proof, worker loop: monitor-invariant proof of the thread pool: every critical section of POOL_add / POOL_tryAdd / POOL_joinJobs / POOL_resize / POOL_thread preserves I_pool (indices in range, empty flag <=> head==tail, ghost accepted-dequeued == number of queued jobs), so for any interleaving of critical sections no job is lost or duplicated and no queue access is out of bounds; a worker executes each job it dequeues exactly once before touching the queue again; tryAdd returning 0 leaves the queue unchanged, 1 adds exactly one job"
+ "what": "thread-pool monitor-invariant proof, blocking post: monitor-invariant proof of the thread pool: every critical section of POOL_add / POOL_tryAdd / POOL_joinJobs / POOL_resize / POOL_thread preserves I_pool (indices in range, empty flag <=> head==tail, ghost accepted-dequeued == number of queued jobs), so for any interleaving of critical sections no job is lost or duplicated and no queue access is out of bounds; a worker executes each job it dequeues exactly once before touching the queue again; tryAdd returning 0 leaves the queue unchanged, 1 adds exactly one job"
 }
 */
 #include "verif.h"
